@@ -100,6 +100,25 @@ NestedAlt ==
         /\ C.orig[C.plan[i].site + 1].o \in (Openers \cup {"else"})
         /\ C.plan[k].site + 1 <= JTO[cid][C.plan[i].site + 1].end
 IsSecond == "second" \in DOMAIN C /\ C.second
+\* a block-entry / block-exit / semantic-after probe on a construct that sits STRICTLY inside a region removed by a
+\* block-alternate: control can never enter, leave or arrive after that construct any more, so the probe must never
+\* fire (C18-C20 "and at no other time"): on the first encoding none of its code may be left in the lowered body.
+\* (before/after code of removed instructions is kept by the library, like for a removal by empty_alternate: C15)
+InsideRemoved(k) ==
+    \E i \in Acc(C.plan) :
+        /\ i # k /\ C.plan[i].mode \in {"block_alt", "empty_block_alt"} /\ C.plan[i].site >= 0
+        /\ C.orig[C.plan[i].site + 1].o \in (Openers \cup {"else"})
+        /\ C.plan[k].site > C.plan[i].site
+        \* (the region's own final end is not "inside": the library keeps injections made on it, and the statement
+        \*  does not say otherwise)
+        /\ C.plan[k].site + 1 <= RegionEnd(C.orig, JTO[cid], C.plan[i].site + 1)
+        /\ (C.orig[C.plan[i].site + 1].o = "else" \/ C.plan[k].site + 1 < RegionEnd(C.orig, JTO[cid], C.plan[i].site + 1))
+LeftFromRemoved ==
+    {k \in Acc(C.plan) :
+        /\ C.plan[k].site >= 0 /\ InsideRemoved(k)
+        /\ C.plan[k].mode \in {"block_entry", "block_exit", "semantic_after"}
+        /\ \E x \in DOMAIN C.low : C.low[x].o = "probe"
+              /\ \E j \in DOMAIN ProbeIds(C.plan[k].code) : ProbeIds(C.plan[k].code)[j] = C.low[x].p}
 
 Chk(c, ok, d) ==
     IF ok THEN TRUE
@@ -131,6 +150,7 @@ Static ==
           /\ Chk("bug_log", C.bugs = <<>>, [n |-> Len(C.bugs)])
           /\ \A i \in LostEntries :
                 Chk("lost_injection", FALSE, EntryD(i))
+          /\ IF IsSecond THEN TRUE ELSE \A k \in LeftFromRemoved : Chk("code_of_removed_region_left", FALSE, EntryD(k))
           /\ Chk("second_encode_differs", C.same2, [x |-> 0])
           \* C26: a plan injected through a ComponentIterator encodes to the same module as through ModuleIterator
           /\ Chk("component_differs_from_module", ("twin_same" \notin DOMAIN C) \/ C.twin_same, [x |-> 0])
